@@ -11,3 +11,36 @@ bool c01_dropped_bad(const draco::PointAttribute &att, int bits) {
 }
 
 }  // namespace verif_control
+
+// ---- STUBREACH controls -----------------------------------------------------------------------------
+// A policy without the value (dummy stub), a class template calling it, a factory keyed by a method id.
+namespace verif_control {
+struct stub_NoBits { int stub_dummy_value() const { return -1; } };
+struct stub_HasBits { int bits; int stub_dummy_value_real() const { return bits; } };
+struct stub_Iface { virtual ~stub_Iface() {} virtual int Run() = 0; };
+template <class P> struct stub_User : stub_Iface {
+  P p;
+  int Run() override { return p.stub_dummy_value() + 1; }
+};
+struct stub_Plain : stub_Iface { int Run() override { return 0; } };
+int stub_select(int kind) { return kind > 3 ? 6 : 1; }
+// bad: the selector can return 6 and nothing excludes it before the factory
+stub_Iface *stub_factory_bad(int method, int kind) {
+  if (method == -2) method = stub_select(kind);
+  if (method == 6) return new stub_User<stub_NoBits>();
+  return new stub_Plain();
+}
+// good: the choke point resolves the default itself and maps 6 away before the factory sees it
+stub_Iface *stub_factory_good(int method, int kind) {
+  if (method == -2) method = stub_select(kind);
+  if (method == 6) return new stub_User<stub_NoBits>();
+  return new stub_Plain();
+}
+stub_Iface *stub_choke_good(int method, int kind) {
+  if (method == -2) method = stub_select(kind);
+  if (method == 6) method = 1;
+  return stub_factory_good(method, kind);
+}
+int stub_entry_good(int m, int kind) { stub_Iface *s = stub_choke_good(m, kind); int r = s->Run(); delete s; return r; }
+int stub_entry_bad(int m, int kind) { stub_Iface *s = stub_factory_bad(m, kind); int r = s->Run(); delete s; return r; }
+}  // namespace verif_control
